@@ -315,18 +315,31 @@ def mon_C09(ctx, ops, states):
     w = Walk(ctx, ops, states)
     bad = []
     sel = None
+    # the launch in progress, from the history of calls (not from the stored marker: a marker left behind after a
+    # reported success is exactly what must not count as a crashed boot): set by a launch start, cleared by a launch
+    # report; if the process ends with it set, the next init rightly treats that patch as crashed
+    boot = None
     for i, o, pre, st, cfg in w.steps():
         k = o['kind']
         ps = eff_pstate(pre, cfg) if cfg else pstate(pre)
+        boot_before = boot
+        if k == 'start' and cfg:
+            boot = num(pstate(st)['cb'])
+        elif k in ('success', 'failure') and cfg:
+            boot = None
+        elif k == 'init' and st['out'] == 'true':
+            boot = None
+        elif state_dmg(o):
+            boot = None
         # does this op end the window?
         if sel is not None:
             ends = False
             if k == 'update' and st['out'] == '1':
                 ends = True
-            if k == 'failure' and cfg and ps['cb'] and ps['cb']['num'] == sel:
+            if k == 'failure' and cfg and boot_before == sel:
                 ends = True
             if k == 'init' and st['out'] == 'true':
-                if state_reset(o, pre, o['rel']) or (pstate(pre)['cb'] and pstate(pre)['cb']['num'] == sel) or o['key'] != selkey:
+                if state_reset(o, pre, o['rel']) or boot_before == sel or o['key'] != selkey:
                     ends = True
             if k in ('check', 'update') and cfg and sel in listed(o):
                 ends = True
